@@ -10,6 +10,7 @@ import (
 	"context"
 	"fmt"
 	"strings"
+	"sync/atomic"
 	"time"
 
 	"github.com/anishathalye/porcupine"
@@ -65,6 +66,7 @@ type c14Scenario struct {
 	threads [][]string
 	mainOps []string // performed by the property's own goroutine while the others run
 	verbose bool
+	tbCtx   bool // the underlying TB has a Context() method of its own (testing.T since Go 1.24): T.Context derives from it
 	late    bool // the workers are not joined by the property body but by a Cleanup function ("cleanup waits for workers")
 }
 
@@ -75,6 +77,8 @@ func c14Scenarios(quick bool) []c14Scenario {
 		{name: "Fail|Fail|Failed", threads: [][]string{{"Fail"}, {"Fail"}, {"Failed"}}},
 		{name: "Context|Context|Context", threads: [][]string{{"Context"}, {"Context"}, {"Context"}}},
 		{name: "Context+Context|Context", threads: [][]string{{"Context", "Context"}, {"Context"}}, mainOps: []string{"Context"}},
+		{name: "Context|Context|Context on a TB that has its own Context()", threads: [][]string{{"Context"}, {"Context"}, {"Context"}}, tbCtx: true},
+		{name: "Context+Cleanup|Context|main Context on a TB that has its own Context()", threads: [][]string{{"Context", "Cleanup"}, {"Context"}}, mainOps: []string{"Context"}, tbCtx: true},
 		{name: "Cleanup|Cleanup|Cleanup", threads: [][]string{{"Cleanup"}, {"Cleanup"}, {"Cleanup"}}},
 		{name: "Cleanup+Cleanup|Cleanup+Errorf", threads: [][]string{{"Cleanup", "Cleanup"}, {"Cleanup", "Errorf"}}},
 		{name: "Log+Name+Helper|Errorf|Failed (verbose)", threads: [][]string{{"Log", "Name", "Helper"}, {"Errorf"}, {"Failed"}}, verbose: true},
@@ -218,7 +222,11 @@ func c14Units(tier string, seed int64) []Unit {
 					run = &c14Run{ctxIDs: map[context.Context]int{}, cleanups: map[int]int{}}
 					r := run
 					words := []uint64{1, 0, 1, 1, 0, 0, 1, 0}
-					res = rapid.VerifRunBuf(tb, words, sc.verbose, func(t *rapid.T) {
+					var rtb rapid.TB = tb
+					if sc.tbCtx {
+						rtb = &CtxTB{FakeTB: tb}
+					}
+					res = rapid.VerifRunBuf(rtb, words, sc.verbose, func(t *rapid.T) {
 						var hs []*vsync.Handle
 						if sc.late {
 							r.regs++
@@ -344,4 +352,17 @@ func init() {
 		Budget:  map[string]time.Duration{"quick": 55 * time.Second, "thorough": 25 * time.Minute},
 		Explain: "states = scheduling points visited, transitions = scheduler steps; each execution is a real run of rapid's code under the controlled scheduler",
 	})
+}
+
+// CtxTB is a TB that has a Context method of its own, like *testing.T since Go 1.24.
+type CtxTB struct {
+	*FakeTB
+	calls int32
+}
+
+type ctxTBKey struct{}
+
+func (t *CtxTB) Context() context.Context {
+	atomic.AddInt32(&t.calls, 1)
+	return context.WithValue(context.Background(), ctxTBKey{}, "from the TB")
 }
